@@ -24,8 +24,8 @@ from tools import vlib
 from tools.vlib import Outcome, sx
 
 MANIFEST = {
-    "level_text": "Coq theorems (Properties/C19.v, no axioms) about a Gallina transcription of save_to_tauri_config / from_tauri_config / validate (config.rs) and of the configuration phase of run_generate and run_init (bin): for every JSON document, every settings value (all twelve fields), every path into the document outside plugins.typegen, every set of files and every flag set: an accepted save preserves every other path (C19_preserve) and reads back as the settings written (C19_roundtrip); the save is refused with an error exactly when the root or plugins is not an object (C19_save_refused); init refuses invalid settings and unwritable documents without touching any file (C19_init_reject_first, C19_init_unsaveable) and otherwise leaves save_doc of the old document (C19_init_document); generate uses flag over file over default for all observable settings and refuses invalid effective settings without a write (C19_precedence, C19_generate_reject_first) for every set of files and flag set. The standalone configuration file (save_to_file / from_file as serde derives them; generate -c) and the build-script loader are modelled next to it: exact round trip for all twelve fields (C19_roundtrip_file), flag over standalone file over default (C19_precedence_file, C19_generate_c), file over default in the build script (C19_precedence_build), the build-script statement on the complement of the class C19-9, with a computed counterexample. The model is tied to /repo on every run: library calls on random documents (compared as JSON values) and the real binary on all 2^5 flag subsets x configuration-file variants and on random init runs.",
-    "level_note": "JSON numbers are opaque tokens of serde_json's number model (u64/i64/f64): preservation of numbers is equality of those values, not of their spelling (1e3 comes back as 1000.0). Parsing and printing of JSON text (serde_json) is outside the model: the model starts from the value serde_json reads, the oracle from the reference reading of the text (a misread decimal is therefore reported). Analysis and generation are reduced to which project, which output directory, which mode. Not modelled: init targets not named tauri.conf.json; a standalone file whose root is a JSON array (serde reads it positionally); duplicate keys in a standalone file; the project detection of the build script (the driver runs it from the project root) and its verbosity (not observable). Force is observed through an immediate identical second run (relies on the cache being stable for a one-command project). Of the boolean oracles only roundtrip_b is proved to accept the model's own output.",
+    "level_text": "Coq theorems (Properties/C19.v, no axioms) about a Gallina transcription of save_to_tauri_config / from_tauri_config / validate (config.rs) and of the configuration phase of run_generate and run_init (bin): for every JSON document, every settings value (all twelve fields), every path into the document outside plugins.typegen, every set of files and every flag set: an accepted save preserves every other path (C19_preserve) and reads back as the settings written (C19_roundtrip); the save is refused with an error exactly when the root or plugins is not an object (C19_save_refused); init refuses invalid settings and unwritable documents without touching any file, for tauri.conf.json and for standalone targets (C19_init_reject_first, C19_init_unsaveable, C19_init_file_reject_first, C19_init_file_no_overwrite, C19_init_file_document) and otherwise leaves save_doc of the old document (C19_init_document); generate uses flag over file over default for all observable settings and refuses invalid effective settings without a write (C19_precedence, C19_generate_reject_first) for every set of files and flag set. The standalone configuration file (save_to_file / from_file as serde derives them; generate -c) and the build-script loader are modelled next to it: exact round trip for all twelve fields (C19_roundtrip_file), flag over standalone file over default (C19_precedence_file, C19_generate_c), file over default in the build script (C19_precedence_build), the build-script statement on the complement of the class C19-9, with a computed counterexample. The model is tied to /repo on every run: library calls on random documents (compared as JSON values) and the real binary on all 2^5 flag subsets x configuration-file variants and on random init runs.",
+    "level_note": "JSON numbers are opaque tokens of serde_json's number model (u64/i64/f64): preservation of numbers is equality of those values, not of their spelling (1e3 comes back as 1000.0). Parsing and printing of JSON text (serde_json) is outside the model: the model starts from the value serde_json reads, the oracle from the reference reading of the text (a misread decimal is therefore reported). Analysis and generation are reduced to which project, which output directory, which mode. Path existence is an input of the model (the set of paths that name something, as the standard library's exists() sees the sandbox): how stat() fails for a path that names nothing is below the model and exercised by the generators only. Not modelled: an init target whose directory does not exist; output paths that cannot be created; a standalone file whose root is a JSON array (serde reads it positionally); duplicate keys in a standalone file; the project detection of the build script (the driver runs it from the project root) and its verbosity (not observable). Force is observed through an immediate identical second run (relies on the cache being stable for a one-command project). Of the boolean oracles only roundtrip_b is proved to accept the model's own output.",
     "technique": "Rocq/Coq proof over hand-written model + correspondence check (extracted OCaml vs Rust harness and the real CLI binary in sandboxes)",
     "design_ref": "DESIGN.md section 5 C19, section 11 (preserve/save_writes/roundtrip/precedence spike)"
 }
@@ -37,6 +37,7 @@ RULE = ("lib: random JSON documents (depth <= 5; Unicode, escaped and surrogate-
         "empty section, each single setting, all settings in two polarities) plus random worlds (file location, "
         "invalid values, wrong types, missing default project, --visualize-deps). init: random documents x flag sets "
         "incl. invalid library / missing project / missing or unparseable target. "
+        "path shapes: 11 shapes of a project path that names nothing (plain missing, trailing slash, through a regular file, component longer than NAME_MAX, symlink loop and through it, dangling symlink and through it, empty string, missing below a project) and 7 spellings of something that exists (a file for a directory, ., trailing slash, symlink to a project with and without slash, a directory without commands) x every place a project path can be given: generate -p / projectPath in tauri.conf.json / both ways round, generate -c project_path / -p over it, init with an explicit tauri.conf.json target here and elsewhere, init -o <standalone file> (to be created, existing with and without --force); refused runs are judged on a byte snapshot of the whole sandbox; the same shapes as settings of the library entry points validate / from_tauri_config / from_file (15 % of the lib and file-roundtrip cases); 250 random init -o <standalone file> runs. "
         "file: 600 settings values through save_to_file/from_file, 600 random standalone documents (right and wrong types, unknown keys) through from_file; "
         "generate -c: all 2^5 flag subsets x 12 standalone-file variants (each setting absent / non-default / equal to its default, all), corpus incl. the seeded force case, random worlds (missing / malformed / invalid file, tauri.conf.json present as a decoy); "
         "build script: BuildSystem::generate_at_build_time() through a driver, 8 fixed + 150 random combinations of tauri.conf.json and typegen.json, force observed through a marker that a non-forced second run must leave alone. "
@@ -341,6 +342,14 @@ BAD_TEXTS = ["", " ", "{", "}", "{\"a\":1,}", "[1,]", "{'a':1}", "{\"a\" 1}", "n
 CASES_ = ["camelCase", "snake_case", "PascalCase", "SCREAMING_SNAKE_CASE", "kebab-case"]
 
 
+# shapes of a project path that names nothing (or something unexpected); the drivers create
+# notes.txt (a regular file), loop -> loop, dangling -> no-such-target, realdir/, linkdir -> realdir
+LONG_NAME = "x" * 300
+LIB_PATH_SHAPES = ["notes.txt/src", "./" + LONG_NAME, LONG_NAME + "/src", "loop/x", "loop", "dangling", "dangling/x",
+                   "notes.txt", "", ".", "./", "realdir/", "linkdir", "linkdir/", "linkdir/sub", "realdir/../realdir",
+                   "./no-such-dir", "no-such-dir/"]
+
+
 def gen_cfg(rng):
     def ob():
         return rng.choice([None, True, False])
@@ -352,6 +361,8 @@ def gen_cfg(rng):
     pp = "/".join(seg() for _ in range(rng.randint(1, 3)))
     if rng.random() < 0.3:
         pp = "./" + pp
+    if rng.random() < 0.15:
+        pp = rng.choice(LIB_PATH_SHAPES)
     lib = rng.choice(["zod", "none"]) if rng.random() < 0.88 else rng.choice(["yup", "Zod", "", "none ", "z\u00f6d"])
     tm = rng.choice([None, None, {}, {"DateTime": "string"}, {"A": "number", "caf\u00e9": "x\"y", "": ""}])
     return {
@@ -405,6 +416,13 @@ LIB_CORPUS = [
     ("section is not an object", '{"plugins":{"typegen":[1,2]}}', {}, True),
     ("invalid library is refused on reading", '{"a":1}', {"validation_library": "yup"}, True),
     ("missing project is refused on reading", '{"a":1}', {}, False),
+    ("path shape: project path through a regular file is refused on reading", '{"a":1}', {"project_path": "notes.txt/src"}, False),
+    ("path shape: over-long component", '{"a":1}', {"project_path": "./" + "x" * 300}, False),
+    ("path shape: symlink loop", '{"a":1}', {"project_path": "loop/x"}, False),
+    ("path shape: dangling symlink", '{"a":1}', {"project_path": "dangling"}, False),
+    ("path shape: empty string", '{"a":1}', {"project_path": ""}, False),
+    ("path shape: a file where a directory is expected exists", '{"a":1}', {"project_path": "notes.txt"}, False),
+    ("path shape: symlink to a directory exists", '{"a":1}', {"project_path": "linkdir/"}, False),
     ("plugins null", '{"plugins":null,"x":{"plugins":{"typegen":1}}}', {}, True),
     ("duplicate key", '{"plugins":[1],"plugins":{"a":1}}', {}, True),
     ("root scalar", '5', {}, True),
@@ -444,7 +462,7 @@ def eval_lib(cases, scratch):
         else:
             impl_after = [] if untouched else ([to_sx(after)] if after is not None else [])
         sexps.append(sx([cfg_sx(c["cfg"]), [] if bref is None else [to_sx(bref)],
-                         [] if before is None else [to_sx(before)], bool(o["mkproj_done"]),
+                         [] if before is None else [to_sx(before)], bool(o["project_exists"]),
                          impl_after, impl_loaded]))
         idx.append(c["id"])
     res = dict(zip(idx, vlib.run_runner("c19-lib", sexps)))
@@ -468,6 +486,9 @@ def eval_lib(cases, scratch):
             continue
         saved = from_sx(m[0][0]) if m[0] else None
         loaded, ok = m[1], m[2] == "true"
+        # GenerateConfig::validate as an entry point of its own
+        validate_agrees = (o["validate"] == "ok") == (m[3] == "true")
+        ok = ok and validate_agrees
         untouched = o.get("after_text") == c["text"]
         if saved is None:
             # the settings cannot be written into this document: InvalidConfig, file untouched
@@ -477,7 +498,7 @@ def eval_lib(cases, scratch):
         if o["save"] != "ok" and not untouched:
             ok = False                      # an error after something was written
         corr_load = vlib.sx_parse(sx(impl_loaded)) == loaded
-        corr = corr_doc and corr_load
+        corr = corr_doc and corr_load and validate_agrees
         kf = None                           # no recorded defect is left at the library level
         det = {"impl": {"save": o["save"], "untouched": untouched, "after": None if after is None else plain(after), "load": o["load"]},
                "model": {"after": None if saved is None else plain(saved), "load": loaded}, "oracle_ok": ok}
@@ -534,6 +555,9 @@ def world_fs(w, reading):
     elif w["src_tauri"] == "dir":
         fs.append(["src-tauri", ["dir"]])
     fs += [["projA", ["proj"]], ["projB", ["proj"]], ["empty", ["dir"]]]
+    # other spellings of things that exist, and the odd entries of materialise()
+    fs += [["projA/", ["proj"]], ["linkA", ["proj"]], ["linkA/", ["proj"]], [".", ["proj"]], ["empty/", ["dir"]],
+           ["notes.txt", ["doc"]]]
     dirs = set()
     for p, text in w["files"].items():
         d = reading[text]
@@ -554,11 +578,30 @@ def materialise(sb, w):
     if w["src_tauri"] == "dir":
         os.makedirs(sb.path("w", "src-tauri"), exist_ok=True)
     os.makedirs(sb.path("w", "empty"), exist_ok=True)
+    # odd entries for the path-shape cases: a regular file, a symlink loop, a dangling symlink, a link to a project
+    sb.write(os.path.join("w", "notes.txt"), "not a directory\n")
+    for target, name in (("loop", "loop"), ("no-such-target", "dangling"), ("projA", "linkA")):
+        try:
+            os.symlink(target, sb.path("w", name))
+        except FileExistsError:
+            pass
     for p, text in w["files"].items():
         sb.write(os.path.normpath(os.path.join("w", p)), text.encode("utf-8"))
 
 
-def observe_run(sb, argv, before):
+ALIASES = {"projA/": "projA", "linkA": "projA", "linkA/": "projA", ".": ".", "./": "."}
+
+
+def spelled(canonical, mentioned, table=ALIASES):
+    """The spelling under which the case names what was observed (a case uses at most one
+    alias spelling of a project, and then no other spelling of it)."""
+    for m in mentioned:
+        if m is not None and table.get(norm(m), None) == canonical and norm(m) != canonical:
+            return norm(m)
+    return canonical
+
+
+def observe_run(sb, argv, before, mentioned=(), out_mentioned=(), argv2=None):
     """Run the binary (twice when the first run generated something) and describe what it was seen to do."""
     cwd = sb.path("w")
     rc, out = sb.cli(argv, cwd=cwd)
@@ -590,15 +633,28 @@ def observe_run(sb, argv, before):
     m = re.search(r"Generator: (\S+)", body)
     lib = m.group(1) if m else "?"
     projs = [p for fn, p in CMD_PROJECT.items() if ("function %s(" % fn) in body]
-    proj = projs[0] if len(projs) == 1 else "?%s" % projs
+    present = [p for p in CMD_PROJECT.values() if os.path.isdir(sb.path("w", p, "src"))]
+    proj = projs[0] if len(projs) == 1 else ("." if len(projs) > 1 and sorted(projs) == sorted(present) else "?%s" % projs)
+    proj = spelled(proj, mentioned)
     verbose = "Parsing and caching all Rust files" in out
     logv = "Loading configuration" in out
     viz = (outdir + "/dependency-graph.txt") in after
-    rc2, out2 = sb.cli(argv, cwd=cwd)
+    rc2, out2 = sb.cli(argv2 or argv, cwd=cwd)
     forced = "bindings are up to date" not in out2
     raw["second"] = {"exit": rc2, "up_to_date": not forced}
     rel = os.path.relpath(sb.path(outdir), cwd)
+    for m in out_mentioned:
+        if m is not None and norm(m).rstrip("/") == rel and norm(m) != rel:
+            rel = norm(m)
     return ["ran", [proj, rel, lib, verbose, logv, viz, forced]], raw, after
+
+
+def mentions(c):
+    """Project spellings a case uses: its -p flag and every string value of a project key in its files."""
+    out = [(c.get("flags") or c.get("iflags") or {}).get("project")]
+    for text in c["world"]["files"].values():
+        out += re.findall(r'"(?:projectPath|project_path)"\s*:\s*"([^"\\]*)"', text)
+    return out
 
 
 def flags_argv(fl):
@@ -627,7 +683,7 @@ def run_generate_case(c):
     with vlib.Sandbox("c19g") as sb:
         materialise(sb, c["world"])
         before = sb.snapshot(".", strip_timestamp=False)
-        obs, raw, _ = observe_run(sb, flags_argv(c["flags"]), before)
+        obs, raw, _ = observe_run(sb, flags_argv(c["flags"]), before, mentions(c), [c["flags"]["output"]])
     return obs, raw
 
 
@@ -806,7 +862,7 @@ def run_init_case(c):
     with vlib.Sandbox("c19i") as sb:
         materialise(sb, c["world"])
         before = sb.snapshot(".", strip_timestamp=False)
-        obs, raw, after = observe_run(sb, iflags_argv(c["iflags"]), before)
+        obs, raw, after = observe_run(sb, iflags_argv(c["iflags"]), before, mentions(c), [c["iflags"]["generated"]])
         t = os.path.normpath(os.path.join("w", init_target(c["iflags"])))
         b = after.get(t)
         doc_after = None
@@ -921,7 +977,7 @@ def eval_flat(cases, scratch):
         ld = o["load"]
         impl_loaded = ["some", cfg_sx(ld["cfg"])] if ld["kind"] == "some" else ["err"]
         keep.append((saved, impl_loaded))
-        sexps.append(sx([cfg_sx(c["cfg"]), [] if saved is None else [to_sx(saved)], impl_loaded, bool(o["mkproj_done"])]))
+        sexps.append(sx([cfg_sx(c["cfg"]), [] if saved is None else [to_sx(saved)], impl_loaded, bool(o["project_exists"])]))
     res = iter(vlib.run_runner("c19-flat", sexps))
     outs = []
     for c, o, k in zip(cases, obs, keep):
@@ -936,6 +992,8 @@ def eval_flat(cases, scratch):
             raise vlib.BuildError("runner: %s" % m)
         saved, impl_loaded = k
         flat, loaded, ok = from_sx(m[0]), m[1], m[2] == "true"
+        validate_agrees = (o["validate"] == "ok") == (m[3] == "true")
+        ok = ok and validate_agrees
         corr = saved == flat and ((impl_loaded[0] == "some" and loaded and vlib.sx_parse(sx(impl_loaded[1])) == loaded[0])
                                   or (impl_loaded[0] == "err" and not loaded))
         det = {"impl": {"saved": None if saved is None else plain(saved), "load": o["load"]},
@@ -1010,7 +1068,7 @@ def run_generatec_case(c):
     with vlib.Sandbox("c19c") as sb:
         materialise(sb, c["world"])
         before = sb.snapshot(".", strip_timestamp=False)
-        obs, raw, _ = observe_run(sb, flags_argv(c["flags"]) + ["-c", c["cfile"]], before)
+        obs, raw, _ = observe_run(sb, flags_argv(c["flags"]) + ["-c", c["cfile"]], before, mentions(c), [c["flags"]["output"]])
     return obs, raw
 
 
@@ -1216,6 +1274,125 @@ def build_cases(rng, n):
     return cases
 
 
+# ------------------------------------------------------------------ init -o <standalone file>
+
+def run_initfile_case(c):
+    with vlib.Sandbox("c19s") as sb:
+        materialise(sb, c["world"])
+        before = sb.snapshot(".", strip_timestamp=False)
+        argv = iflags_argv(c["iflags"]) + (["--force"] if c["force"] else [])
+        # the second run (which shows whether the cache is honoured) must be allowed to overwrite the file
+        obs, raw, after = observe_run(sb, argv, before, mentions(c), [c["iflags"]["generated"]],
+                                      argv2=iflags_argv(c["iflags"]) + ["--force"])
+        b = after.get(os.path.normpath(os.path.join("w", norm(c["iflags"]["output"]))))
+        doc_after = None
+        if b is not None:
+            try:
+                doc_after = py_parse(b.decode("utf-8"))
+            except UnicodeDecodeError:
+                doc_after = None
+    raw.pop("changed_texts", None)
+    return obs, raw, doc_after
+
+
+def eval_initfile(cases):
+    res = vlib.pmap(run_initfile_case, cases)
+    reading = serde_read([t for c in cases for t in c["world"]["files"].values()])
+    sexps = []
+    for c, (obs, raw, doc_after) in zip(cases, res):
+        o = obs if obs[0] != "odd" else ["rejected", False]
+        sexps.append(sx([world_fs(c["world"], reading), iflags_sx(c["iflags"]), c["force"], o,
+                         [] if doc_after is None else [to_sx(doc_after)]]))
+    ms = vlib.run_runner("c19-initfile", sexps)
+    outs = []
+    for c, (obs, raw, doc_after), m in zip(cases, res, ms):
+        case = {"world": c["world"], "iflags": c["iflags"], "force": c["force"]}
+        if m and m[0] == "runner-error":
+            raise vlib.BuildError("runner: %s" % m)
+        result, mdoc, ok = m[0], m[1], m[2] == "true"
+        kind, eff, unchanged = result[0], result[1], result[2] == "true"
+        model_doc = from_sx(mdoc[0]) if mdoc else None
+        corr_doc = model_doc == doc_after
+        if obs[0] == "odd":
+            corr, ok = False, False
+        elif obs[0] == "rejected":
+            corr = (kind.startswith("reject") or kind == "fail") and (unchanged == obs[1]) and corr_doc
+        elif obs[0] == "nocommands":
+            corr = kind == "nocommands" and corr_doc
+        else:
+            corr = kind == "run" and eff and vlib.sx_parse(sx(obs[1])) == eff[0] and corr_doc
+        det = {"impl": {"seen": obs, "raw": raw, "doc_after": None if doc_after is None else plain(doc_after)},
+               "model": {"result": result, "doc_after": None if model_doc is None else plain(model_doc)}}
+        if ok and corr:
+            det = {"seen": obs}
+        outs.append(Outcome(case, corr, ok, None, det, True))
+    return outs
+
+
+# ------------------------------------------------------------------ path shapes through every entry point
+
+# project paths that name nothing, in the shapes stat() can fail, and other spellings of what exists
+MISSING_SHAPES = ["./no-such-dir", "no-such-dir/", "notes.txt/src", "./" + LONG_NAME, LONG_NAME + "/src", "loop/x", "loop",
+                  "dangling", "dangling/x", "", "projA/no/such"]
+EXISTING_SHAPES = ["notes.txt", ".", "projA/", "linkA", "linkA/", "empty/", "./empty"]
+IL0 = {"project": None, "generated": None, "output": None, "lib": None, "verbose": False, "viz": False}
+
+
+def path_shape_cases():
+    """Every shape x every place a project path can be given (small-scope exhaustive)."""
+    gen, genc, init, initfile = [], [], [], []
+    doc = '{"productName":"demo","build":{"big":18446744073709551615,"ratio":0.1},"plugins":{"shell":{"open":true},"typegen":{"projectPath":"./src-tauri","outputPath":"./old"}}}'
+    for shape in MISSING_SHAPES + EXISTING_SHAPES:
+        w0 = {"src_tauri": "proj", "files": {}}
+        # generate: -p flag; projectPath in tauri.conf.json; both (flag valid, file odd and the other way round)
+        gen.append({"world": w0, "flags": dict(NOFLAGS, project=shape)})
+        gen.append({"world": {"src_tauri": "proj", "files": {"tauri.conf.json": sec_text({"projectPath": shape, "outputPath": "./outF"})}},
+                    "flags": dict(NOFLAGS)})
+        gen.append({"world": {"src_tauri": "proj", "files": {"tauri.conf.json": sec_text({"projectPath": shape, "outputPath": "./outF"})}},
+                    "flags": dict(NOFLAGS, project="./projB", output="outC/")})
+        gen.append({"world": {"src_tauri": "proj", "files": {"tauri.conf.json": sec_text({"projectPath": "./projB", "validationLibrary": "zod"})}},
+                    "flags": dict(NOFLAGS, project=shape, force=True)})
+        # generate -c: project_path in the standalone file; -p flag over it
+        genc.append({"world": {"src_tauri": "proj", "files": {"typegen.json": flat_text({"project_path": shape, "output_path": "./outF"})}},
+                     "flags": dict(NOFLAGS), "cfile": "typegen.json"})
+        genc.append({"world": {"src_tauri": "proj", "files": {"typegen.json": flat_text({"project_path": "./projB", "force": True})}},
+                     "flags": dict(NOFLAGS, project=shape), "cfile": "typegen.json"})
+        # init with an explicit tauri.conf.json target (in the working directory, elsewhere)
+        for target in ("./tauri.conf.json", "cfg/tauri.conf.json"):
+            init.append({"world": {"src_tauri": "proj", "files": {target: doc}},
+                         "iflags": dict(IL0, project=shape, generated="./gen", output=target, lib="zod")})
+        # init with a standalone target: to be created; existing with and without --force
+        initfile.append({"world": w0, "iflags": dict(IL0, project=shape, generated="./gen", output="./typegen.json", lib="zod"), "force": False})
+        initfile.append({"world": {"src_tauri": "proj", "files": {"cfg/my.json": '{"old":true}'}},
+                         "iflags": dict(IL0, project=shape, output="cfg/my.json"), "force": True})
+        initfile.append({"world": {"src_tauri": "proj", "files": {"typegen.json": '{"old":true}'}},
+                         "iflags": dict(IL0, project=shape, output="typegen.json", lib="none"), "force": False})
+    # an unsupported library with every kind of target
+    for lib in ("foo", "", "ZOD"):
+        init.append({"world": {"src_tauri": "proj", "files": {"./tauri.conf.json": doc}},
+                     "iflags": dict(IL0, output="./tauri.conf.json", lib=lib)})
+        initfile.append({"world": {"src_tauri": "proj", "files": {}}, "iflags": dict(IL0, output="./typegen.json", lib=lib), "force": False})
+        initfile.append({"world": {"src_tauri": "proj", "files": {"typegen.json": "{}"}}, "iflags": dict(IL0, output="typegen.json", lib=lib), "force": True})
+    return gen, genc, init, initfile
+
+
+def random_initfile_case(rng):
+    il = {"project": rng.choice([None, None, "./projA", "projB", "./projB"] + MISSING_SHAPES[:4] + ["linkA", "empty/"]),
+          "generated": rng.choice([None, "./gen", "gen/deep", "gen/"]),
+          "output": rng.choice(["./typegen.json", "typegen.json", "cfg/my.json", "my.config"]),
+          "lib": rng.choice([None, None, "zod", "none", "zod", "foo"]),
+          "verbose": rng.random() < 0.2, "viz": rng.random() < 0.2}
+    w = {"src_tauri": rng.choice(["proj", "proj", "proj", "absent"]), "files": {}}
+    r = rng.random()
+    if r < 0.4 or il["output"].startswith("cfg/"):
+        w["files"][il["output"]] = rng.choice(['{"old":true}', gen_flat_text(rng), "not json", ""])
+    if il["output"].startswith("cfg/") and rng.random() < 0.5:
+        w["files"] = {"cfg/other.txt": "x"}          # the directory exists, the target does not
+    if rng.random() < 0.15:
+        w["files"]["tauri.conf.json"] = sec_text({"force": rng.random() < 0.5, "verbose": rng.random() < 0.5})
+    return {"world": w, "iflags": il, "force": rng.random() < 0.4}
+
+
 # ------------------------------------------------------------------ entry points
 
 def build_all():
@@ -1242,6 +1419,12 @@ def run(rep):
     lap("built")
     rng = random.Random(rep.seed)
     quick = rep.tier == "quick"
+    # corpus first: minimised past misses (corpus/C19/*.json), replayed deterministically
+    for path in corpus_files():
+        it = json.load(open(path))
+        c = dict(it["case"])
+        c["id"] = 0
+        run_one(rep, it["stream"], c, "corpus-file")
     with vlib.Sandbox("c19lib") as sb:
         cases, ncorp = lib_cases(rep.tier, rng)
         outs = eval_lib(cases, sb.root)
@@ -1297,6 +1480,19 @@ def run(rep):
                                             "generate_c_exhaustive": len(gce), "generate_c_random": len(gcr),
                                             "build_loader": len(bcs)}
     lap("standalone done")
+    # path shapes (through a file, over-long component, symlink loop, dangling symlink, file for a directory,
+    # empty string, ".", trailing slash, symlink to a directory) through every entry point
+    pg, pc, pi, pf = path_shape_cases()
+    rep.add("path-shapes-generate", eval_generate(pg), sample_count=1)
+    rep.add("path-shapes-generate-c", eval_generatec(pc), sample_count=1)
+    rep.add("path-shapes-init", eval_init(pi), sample_count=1)
+    rep.add("path-shapes-init-file", eval_initfile(pf), sample_count=1)
+    fr = [random_initfile_case(rng) for _ in range(250 if quick else 4000)]
+    rep.add("init-file-random", eval_initfile(fr))
+    rep.extra["path_shape_distribution"] = {"generate": len(pg), "generate_c": len(pc), "init": len(pi),
+                                            "init_file": len(pf), "init_file_random": len(fr),
+                                            "missing_shapes": len(MISSING_SHAPES), "existing_shapes": len(EXISTING_SHAPES)}
+    lap("path shapes done")
     icorpus = [{"world": w, "iflags": il, "name": n} for n, w, il in INIT_CORPUS]
     rep.add("init-corpus", eval_init(icorpus), sample_count=1)
     irnd = [random_init_case(rng) for _ in range(700 if quick else 6000)]
@@ -1310,27 +1506,39 @@ def run(rep):
     }
 
 
+def run_one(rep, st, c, name=None):
+    """Evaluate one stored case of stream st (replay files and corpus/C19/*.json)."""
+    name = name or st
+    if st.startswith("lib"):
+        with vlib.Sandbox("c19lib") as sb:
+            rep.add(name, eval_lib([c], sb.root))
+    elif st.startswith("file-roundtrip"):
+        with vlib.Sandbox("c19flat") as sb:
+            rep.add(name, eval_flat([c], sb.root))
+    elif st.startswith("file-read"):
+        with vlib.Sandbox("c19flat") as sb:
+            rep.add(name, eval_flatload([c], sb.root))
+    elif "init-file" in st:
+        rep.add(name, eval_initfile([c]))
+    elif st == "path-shapes-init" or st.startswith("init"):
+        rep.add(name, eval_init([c]))
+    elif st.startswith("generate-c") or st == "path-shapes-generate-c":
+        rep.add(name, eval_generatec([c]))
+    elif st.startswith("build"):
+        rep.add(name, eval_build([c]))
+    else:
+        rep.add(name, eval_generate([c]))
+
+
+def corpus_files():
+    d = os.path.join(vlib.VERIF, "corpus", "C19")
+    return sorted(os.path.join(d, f) for f in os.listdir(d) if f.endswith(".json")) if os.path.isdir(d) else []
+
+
 def replay(rep, payload):
     build_all()
     items = payload.get("disagreeing_cases") or [payload]
     for i, it in enumerate(items):
         c = dict(it["case"])
         c["id"] = i
-        st = it["stream"]
-        if st.startswith("lib"):
-            with vlib.Sandbox("c19lib") as sb:
-                rep.add(st, eval_lib([c], sb.root))
-        elif st.startswith("file-roundtrip"):
-            with vlib.Sandbox("c19flat") as sb:
-                rep.add(st, eval_flat([c], sb.root))
-        elif st.startswith("file-read"):
-            with vlib.Sandbox("c19flat") as sb:
-                rep.add(st, eval_flatload([c], sb.root))
-        elif st.startswith("generate-c"):
-            rep.add(st, eval_generatec([c]))
-        elif st.startswith("build"):
-            rep.add(st, eval_build([c]))
-        elif st.startswith("generate"):
-            rep.add(st, eval_generate([c]))
-        else:
-            rep.add(st, eval_init([c]))
+        run_one(rep, it["stream"], c)
